@@ -198,7 +198,7 @@ theorem stageUpgrade_ok {cfg : SrvCfg} {env : SrvEnv} {hs : List Hdr} (wf : Hdrs
   | none =>
     simp
     split
-    · split <;> simp
+    · split <;> simp [bad]
     · simp
   | some h =>
     by_cases ht : hasToken b!"websocket" h.val = true
